@@ -257,6 +257,11 @@ fn main() {
                     if !wanted.contains(&key) { continue; }
                     seen.insert(key.clone());
                     let name = f.sig.ident.to_string();
+                    let mut f = f;
+                    if let Some(n) = ctx.opts["rename_fns"].as_object().and_then(|m| m.get(&name)).and_then(|v| v.as_str()) {
+                        f.sig.ident = syn::Ident::new(n, f.sig.ident.span());
+                        ctx.used("R33");
+                    }
                     out.push_str(&weave::emit_fn(None, &name, f, &mut contracts, &mut ctx, &mut report_fns, &mut assumed));
                 }
                 syn::Item::Impl(mut im) => {
